@@ -93,6 +93,49 @@ theorem contains_big_32_eq (e sz cap bits : Nat) (a : Tbl) (hb : bits = 0 ∨ bi
   · rfl
   · cases RH.lookfor (if e = 0 then bits else e) a 0 <;> rfl
 
+/-! ### the layout dispatch of `internal()` / `internal_mut()` (`Generated/Loops.lean`: 0 `Big`, 1 `Dense`, 2 `Heap`) is
+the model's `isDense` / `isPlain` -/
+
+theorem layout_64_eq (bits : Nat) :
+    Gen.layout_64 bits = (if isDense cfg64 bits then 1 else if isPlain cfg64 bits then 0 else 2) ∧
+    Gen.layout_mut_64 bits = Gen.layout_64 bits := by
+  refine ⟨?_, rfl⟩
+  simp only [Gen.layout_64, isDense, isPlain, cfg64, decide_eq_true_eq, Bool.or_eq_true]
+  by_cases h1 : bits = 64
+  · subst h1; simp
+  · by_cases h2 : bits = 0 ∨ bits > 64
+    · simp [h1, h2]
+    · simp [h1, h2]
+theorem layout_32_eq (bits : Nat) :
+    Gen.layout_32 bits = (if isDense cfg32 bits then 1 else if isPlain cfg32 bits then 0 else 2) ∧
+    Gen.layout_mut_32 bits = Gen.layout_32 bits := by
+  refine ⟨?_, rfl⟩
+  simp only [Gen.layout_32, isDense, isPlain, cfg32, decide_eq_true_eq, Bool.or_eq_true]
+  by_cases h1 : bits = 32
+  · subst h1; simp
+  · by_cases h2 : bits = 0 ∨ bits > 32
+    · simp [h1, h2]
+    · simp [h1, h2]
+/-- the three cases, as used by the dispatching definitions -/
+theorem layout_64_cases (bits : Nat) :
+    (bits = 64 ∧ Gen.layout_64 bits = 1) ∨ ((bits = 0 ∨ bits > 64) ∧ Gen.layout_64 bits = 0) ∨
+    ((0 < bits ∧ bits < 64) ∧ Gen.layout_64 bits = 2) := by
+  simp only [Gen.layout_64]
+  by_cases h1 : bits = 64
+  · subst h1; simp
+  · by_cases h2 : bits = 0 ∨ bits > 64
+    · simp [h2]
+    · right; right; simp [h1, h2]; omega
+theorem layout_32_cases (bits : Nat) :
+    (bits = 32 ∧ Gen.layout_32 bits = 1) ∨ ((bits = 0 ∨ bits > 32) ∧ Gen.layout_32 bits = 0) ∨
+    ((0 < bits ∧ bits < 32) ∧ Gen.layout_32 bits = 2) := by
+  simp only [Gen.layout_32]
+  by_cases h1 : bits = 32
+  · subst h1; simp
+  · by_cases h2 : bits = 0 ∨ bits > 32
+    · simp [h2]
+    · right; right; simp [h1, h2]; omega
+
 end SC
 
 #print axioms SC.contains_heap_64_eq
